@@ -78,13 +78,8 @@ Proof.
       rewrite <- app_assoc. cbn [app length]. do 3 f_equal. lia.
 Qed.
 
-(** what the AUTH= value decodes to, in the exact grammar *)
-Definition xt_value_x (d : bytes) : Prop :=
-  d = [] \/ d = [60; 62]%N \/ mailbox_x pton4 pton6 lweak 3 d \/ mailbox_x pton4 pton6 lweak 4 d.
-
-Definition xtext_accept (s : bytes) (n : Z) : Prop :=
-  exists x tail d, s = x ++ tail /\ n = Z.of_nat (length x) /\ (tail = [] \/ hd 0%N tail = SP)
-    /\ xdecode x = Some d /\ ~ In NUL d /\ length d <= 320 /\ xt_value_x d.
+Definition xt_value_x (d : bytes) : Prop := xtext_value_x pton4 pton6 d.
+Definition xtext_accept (s : bytes) (n : Z) : Prop := Spec.AddrGrammar.xtext_accept pton4 pton6 s n.
 
 Theorem xtextlen_iff s rest n : ~ In NUL s -> (0 <= n)%Z ->
   (xtextlen pton4 pton6 (s ++ NUL :: rest) = Ok n <-> xtext_accept s n).
@@ -95,20 +90,20 @@ Proof.
     destruct (xt_loop_spec rest (length s) s (le_n _) Hs [] 0%Z ltac:(simpl; lia)) as (r & Hr & Hpost).
     rewrite Hr in H. cbn [bind] in H. destruct r as [[acc result]|]; [|inversion H; lia].
     destruct Hpost as (x & tail & d & -> & Htail & Hd & Hdn & -> & -> & Hl). cbn [app] in *. rewrite Z.add_0_l in H.
-    exists x, tail, d.
+    unfold xtext_accept, Spec.AddrGrammar.xtext_accept. exists x, tail, d.
     destruct (Nat.eqb_spec (length d) 0) as [E0|Hne].
-    { inversion H; subst n. destruct d; [|discriminate]. unfold xt_value_x. auto 10. }
+    { inversion H; subst n. destruct d; [|discriminate]. unfold xt_value_x, xtext_value_x. auto 10. }
     xt_consts. destruct (Nat.leb_spec 321 (length d)) as [Hbad|_]; [lia|].
     change (d ++ [NUL]) with (d ++ NUL :: []) in H.
     rewrite strcmp_run in H; [|assumption|vm_compute; intuition discriminate]. cbn [bind] in H.
     destruct (bytes_eqb d [60; 62]%N) eqn:Enp.
-    { apply bytes_eqb_eq in Enp. inversion H; subst n. unfold xt_value_x. auto 10. }
+    { apply bytes_eqb_eq in Enp. inversion H; subst n. unfold xt_value_x, xtext_value_x. auto 10. }
     unfold addrspec_valid in H. unfold AV_MIN in H.
     destruct (parseaddr_spec_x pton4 pton6 d [] Hdn) as (rc & Hrc & Hp). rewrite Hrc in H. cbn [bind] in H.
     destruct (Nat.leb_spec 3 rc) as [H3|_]; [|inversion H; lia].
     inversion H; subst n.
     repeat (split; [assumption || reflexivity|]).
-    unfold xt_value_x. destruct rc as [|[|[|[|[|]]]]]; try lia; cbn in Hp; auto; destruct Hp.
+    unfold xt_value_x, xtext_value_x. destruct rc as [|[|[|[|[|]]]]]; try lia; cbn in Hp; auto; destruct Hp.
   - intros (x & tail & d & -> & -> & Htail & Hd & Hdn & Hl & Hv).
     apply not_in_app in Hs as [_ Hnt]. unfold xtextlen.
     rewrite (xt_loop_complete rest (length x) x (le_n _) d Hd Hdn [] 0%Z tail Htail Hnt) by (simpl; lia).
